@@ -110,6 +110,17 @@ Theorem C04_survivor_failed_refuted :
 Proof. exact (conj w_nlen_pos (conj w_init_ok w_run)). Qed.
 Print Assumptions C04_survivor_failed_refuted.
 
+(* the other route of the same class: ten remaps do not catch up with a
+   process that keeps extending the file and linking records of the bucket
+   (t_sched is computed by the driver t_rounds of Proofs/FileConcWitness.v) *)
+Theorem C04_survivor_failed_refuted_tries :
+  (forall nm, 1 <= w_nlen nm) /\ init_ok w_bucket w_nlen w_H t_st0 /\
+  let st := run w_bucket w_nlen w_H t_sched t_st0 in
+  results_of st 1%nat = [RFail FTries] /\ pc_of st 1%nat = Some Done /\
+  forallb (fun r => match r with RCell _ => true | RFail _ => false end) (results_of st 0%nat) = true.
+Proof. exact (conj w_nlen_pos (conj t_init_ok t_run)). Qed.
+Print Assumptions C04_survivor_failed_refuted_tries.
+
 (* survivor_not_failed, positive part (names not empty): whatever the other
    processes do and whoever is killed, a call of newCounter fails only
    - for its own over-long name (FTooLong), or
